@@ -33,7 +33,7 @@ FailedRun(t) ==
           [] cl = "update_uses_wrong_member_set" -> \E i \in DOMAIN U : U[i].m \notin DOMAIN c \/ SetOf(U[i].prods_keys) # c[U[i].m] \ {U[i].f}
           [] cl = "update_writes_another_key" -> \E i \in DOMAIN U : U[i].wrote # <<U[i].f, U[i].m>> \/ U[i].m \notin DOMAIN c \/ <<U[i].f, U[i].m>> \notin pairs
           [] cl = "pair_never_updated" -> t.iterations > 0 /\ {<<U[i].f, U[i].m>> : i \in DOMAIN U} # pairs
-          [] cl = "final_average_reads_wrong_messages" -> AsPairs(t.final_reads) # pairs \/ Len(t.final_reads) # Cardinality(pairs)
+          [] cl = "final_average_reads_wrong_messages" -> t.final_reads_known /\ (AsPairs(t.final_reads) # pairs \/ Len(t.final_reads) # Cardinality(pairs))
           [] cl = "update_value_not_product_of_inputs_at_phi_one" -> t.phi_kind = "one" /\ \E i \in DOMAIN U :
                    LET rx == U[i].rx IN
                    IF \E k \in DOMAIN rx : rx[k] < 0 THEN TRUE                          \* a message that is not a power of two at phi = 1
